@@ -6,6 +6,8 @@
 //! disagreement on such a line means implementation != specification.  `forest specx …` (answer
 //! `1`) cross-checks inside the model that its own result is handle-for-handle the specification
 //! with xot's survivor rule.
+//! Second round: `clone`, attribute / namespace `map_insert` / `map_remove`, the value setters and
+//! `text_content_set` are compared in the same way with `Model/FspecSpec2.lean`.
 //! Oracles (implementation only): the survivor of a text merge (property text: the earlier
 //! node), and conservation of character data by calls that destroy nothing.
 use crate::common::{enc, Rng, Sink};
@@ -26,8 +28,8 @@ fn build_ops(s: &mut Session, sink: &mut Sink, t: &GTree) -> usize {
 
 const OPS: &[(&str, usize)] = &[
     ("append", 12), ("prepend", 10), ("insert_after", 12), ("insert_before", 12), ("detach", 6), ("remove", 6),
-    ("replace", 8), ("unwrap", 6), ("wrap", 6), ("clone", 2), ("any_append", 2), ("map_insert", 2),
-    ("set_text", 2), ("text_content_set", 1), ("new", 10), ("cons", 1),
+    ("replace", 8), ("unwrap", 6), ("wrap", 6), ("clone", 3), ("any_append", 2), ("map_insert", 3), ("map_remove", 2),
+    ("set_text", 2), ("set_comment", 1), ("set_pi_data", 1), ("set_name", 1), ("text_content_set", 2), ("new", 10), ("cons", 1),
 ];
 
 fn pick_op(rng: &mut Rng) -> &'static str {
@@ -130,6 +132,8 @@ fn observe(s: &Session, op: &str, a: Node, b: Node) -> Pre {
 fn step(s: &mut Session, sink: &mut Sink, op: &str, req: &str, x: usize, y: usize, cons: &mut bool, restrict: bool) -> bool {
     sink.stat(&format!("op.{}", op));
     let spec_op = matches!(op, "append" | "prepend" | "insert_after" | "insert_before" | "detach" | "remove" | "replace" | "unwrap" | "wrap");
+    // calls compared with `Model/FspecSpec2.lean` (no text-merge oracle; proved without `Forest.Normal`)
+    let spec2_op = matches!(op, "clone" | "map_insert" | "map_remove" | "set_text" | "set_comment" | "set_pi_data" | "set_name" | "text_content_set");
     let nonnormal = *cons && has_adjacent_text(s);
     let pre = if spec_op { Some(observe(s, op, s.nodes[x], s.nodes[y])) } else { None };
     let mark = sink.lines.len();
@@ -140,6 +144,15 @@ fn step(s: &mut Session, sink: &mut Sink, op: &str, req: &str, x: usize, y: usiz
     }
     if op == "cons" {
         *cons = req.ends_with('1');
+    }
+    if spec2_op && resp.starts_with("ok") {
+        // the real post-state against the specification applied to the model's pre-state, and the
+        // model's own result handle for handle
+        let content = erase_labels(&s.dump());
+        sink.lines.insert(mark, (format!("forest spec {}", req), content));
+        sink.lines.insert(mark + 1, (format!("forest specx {}", req), "1".into()));
+        sink.stat("spec.checked");
+        sink.stat(&format!("spec.checked.{}", op));
     }
     if spec_op && resp.starts_with("ok") {
         let pre = pre.unwrap();
@@ -245,6 +258,8 @@ pub fn one_history(rng: &mut Rng, sink: &mut Sink, n_ops: usize, allow_cons_off:
         let b = *rng.pick(&live);
         let elems: Vec<usize> = live.iter().copied().filter(|&l| s.xot.is_element(s.nodes[l])).collect();
         let texts: Vec<usize> = live.iter().copied().filter(|&l| s.xot.is_text(s.nodes[l])).collect();
+        let comments: Vec<usize> = live.iter().copied().filter(|&l| s.xot.is_comment(s.nodes[l])).collect();
+        let pis: Vec<usize> = live.iter().copied().filter(|&l| s.xot.is_processing_instruction(s.nodes[l])).collect();
         let e = if elems.is_empty() || rng.chance(1, 8) { a } else { *rng.pick(&elems) };
         // bias the moved node towards text nodes: merges are the interesting part
         let mut b = if !texts.is_empty() && rng.chance(1, 3) { *rng.pick(&texts) } else { b };
@@ -273,8 +288,24 @@ pub fn one_history(rng: &mut Rng, sink: &mut Sink, n_ops: usize, allow_cons_off:
             "insert_after" | "insert_before" | "replace" => (format!("{} {} {}", op, a, b), a, b),
             "detach" | "remove" | "unwrap" | "clone" => (format!("{} {}", op, a), a, a),
             "wrap" => (format!("wrap {} {}", a, rng.pick(&[2usize, 6])), a, a),
-            "map_insert" => (format!("map_insert attr {} {} {}", e, rng.pick(&[2usize, 3, 0, 6]), enc(&small_text(rng))), e, e),
-            "set_text" => (format!("set_text {} {}", a, enc(&small_text(rng))), a, a),
+            "map_insert" => {
+                if rng.chance(2, 3) {
+                    (format!("map_insert attr {} {} {}", e, rng.pick(&[2usize, 3, 0, 6]), enc(&small_text(rng))), e, e)
+                } else {
+                    (format!("map_insert ns {} {} {}", e, rng.pick(&[0usize, 2, 3]), rng.pick(&[0usize, 2, 3])), e, e)
+                }
+            }
+            "map_remove" => {
+                if rng.chance(2, 3) {
+                    (format!("map_remove attr {} {}", e, rng.pick(&[2usize, 3, 0, 6])), e, e)
+                } else {
+                    (format!("map_remove ns {} {}", e, rng.pick(&[0usize, 2, 3])), e, e)
+                }
+            }
+            "set_text" => (format!("set_text {} {}", if !texts.is_empty() && rng.chance(2, 3) { *rng.pick(&texts) } else { a }, enc(&small_text(rng))), a, a),
+            "set_comment" => (format!("set_comment {} {}", if !comments.is_empty() && rng.chance(3, 4) { *rng.pick(&comments) } else { a }, enc(&small_text(rng))), a, a),
+            "set_pi_data" => (format!("set_pi_data {} {}", if !pis.is_empty() && rng.chance(3, 4) { *rng.pick(&pis) } else { a }, if rng.chance(1, 3) { "-".to_string() } else { enc(&small_text(rng)) }), a, a),
+            "set_name" => (format!("set_name {} {}", e, rng.pick(&[2usize, 6, 9])), e, e),
             "text_content_set" => (format!("text_content_set {} {}", e, enc(&small_text(rng))), e, e),
             "new" => (format!("new {}", GTree::leaf(gen_value(rng)).wire()), a, a),
             "cons" => {
